@@ -49,7 +49,7 @@ func vfGenC18(t *rapid.T) vfCaseC18 {
 			case "READ":
 				r.H = rapid.SampledFrom([]int{0, 0, 1, 1, 4, 4, -1}).Draw(t, "rh")
 				r.Off = rapid.SampledFrom([]int{0, 1, 2, 50, 200, 299, 300}).Draw(t, "roff")
-				r.Len = rapid.SampledFrom([]int{1, 3, 100, 300, 32768}).Draw(t, "rlen")
+				r.Len = rapid.SampledFrom([]int{1, 3, 100, 300, 32768, 32768, 262144, 262145, 1 << 20}).Draw(t, "rlen")
 			case "WRITE":
 				r.Len = rapid.SampledFrom([]int{1, 10, 300}).Draw(t, "wlen")
 				if rapid.IntRange(0, 2).Draw(t, "wrw") == 0 {
